@@ -14,6 +14,7 @@ package main
 
 import (
 	"context"
+	"database/sql"
 	"encoding/json"
 	"errors"
 	"fmt"
@@ -23,6 +24,7 @@ import (
 	"path/filepath"
 	"strings"
 	"sync"
+	"time"
 
 	"github.com/agglayer/aggkit/agglayer"
 	agglayertypes "github.com/agglayer/aggkit/agglayer/types"
@@ -37,6 +39,7 @@ import (
 	"github.com/ethereum/go-ethereum/common"
 	ethtypes "github.com/ethereum/go-ethereum/core/types"
 	"github.com/ethereum/go-ethereum/crypto"
+	_ "github.com/mattn/go-sqlite3"
 
 	"verifharness/hlib"
 )
@@ -72,10 +75,22 @@ type Step struct {
 	St   int    `json:"st,omitempty"`  // move: target status 0 Pending 1 Proven 2 Candidate 3 InError 4 Settled
 }
 
+// Seed is a certificate that exists before the sender starts (a node restarted on its database, or a table rebuilt
+// from the Agglayer): a row of certificate_info plus the Agglayer's record of it. Exit roots are those of the real
+// tree at the range's ends. Seeds are listed by ascending height; their ids are 0,1,2,...
+type Seed struct {
+	Height uint64 `json:"height"`
+	Status int    `json:"status"`
+	From   uint64 `json:"from"`
+	To     uint64 `json:"to"`
+	Retry  int    `json:"retry,omitempty"`
+}
+
 type In struct {
 	Retry      bool   `json:"retry"`       // RetryCertAfterInError
 	StartBlock uint64 `json:"start_block"` // StartL2Block
 	Pre        []Step `json:"pre"`         // blocks synced before the sender starts (the last one is >= StartBlock)
+	Seeds      []Seed `json:"seeds,omitempty"`
 	Steps      []Step `json:"steps"`
 	Tag        string `json:"tag,omitempty"`
 }
@@ -131,6 +146,7 @@ type StepObs struct {
 type Out struct {
 	In       In        `json:"in"`
 	StartLER string    `json:"start_ler"` // what getStartLER() returns for this configuration
+	Seeds    []RowObs  `json:"seeds"`     // the seeded certificates with the exit roots they were given
 	Steps    []StepObs `json:"steps"`
 	HarnessE string    `json:"harness_err,omitempty"`
 }
@@ -409,6 +425,29 @@ func run(in In, n int) (out Out) {
 	defer bridgesync.VerifClose(bs)
 	synced := uint64(0)
 	lastDCUpToStart := int64(-1)
+	type blockDC struct {
+		num uint64
+		dc  int64
+	}
+	var dcs []blockDC // (block, highest deposit count at or before it), ascending
+	curDC := int64(-1)
+	emptyLER := common.HexToHash("0x27ae5ba08d7291c96c8cbddcc148bf48a6d68c7974b94356f53754ef6171d757")
+	rootUpTo := func(b uint64) common.Hash { // exit root after the last deposit of the blocks <= b
+		dc := int64(-1)
+		for _, x := range dcs {
+			if x.num <= b {
+				dc = x.dc
+			}
+		}
+		if dc < 0 {
+			return emptyLER
+		}
+		r, err := bs.GetExitRootByIndex(ctx, uint32(dc))
+		if err != nil {
+			panic(err)
+		}
+		return r.Hash
+	}
 	processBlock := func(s Step) string {
 		num := synced + s.Skip + 1
 		blk := aggsync.Block{Num: num, Hash: common.BigToHash(new(big.Int).SetUint64(num + 1000))}
@@ -419,6 +458,12 @@ func run(in In, n int) (out Out) {
 			return err.Error()
 		}
 		synced = num
+		for _, e := range s.Evs {
+			if e.T == "b" {
+				curDC = int64(e.DC)
+			}
+		}
+		dcs = append(dcs, blockDC{num, curDC})
 		return ""
 	}
 	for _, s := range in.Pre {
@@ -453,9 +498,39 @@ func run(in In, n int) (out Out) {
 	}
 	defer storage.VerifCloseC13()
 	agg := &fakeAgg{}
+	out.Seeds = []RowObs{}
+	for k, sd := range in.Seeds {
+		prevLER, newLER := emptyLER, rootUpTo(sd.To)
+		if sd.From > 0 {
+			prevLER = rootUpTo(sd.From - 1)
+		}
+		meta := aggsendertypes.NewCertificateMetadata(sd.From, uint32(sd.To-sd.From), 1, aggsendertypes.CertificateTypePP.ToInt()).ToHash()
+		agg.certs = append(agg.certs, &aggCert{height: sd.Height, status: agglayertypes.CertificateStatus(sd.Status),
+			newLER: newLER, prevLER: prevLER, meta: meta})
+		signed := "{}"
+		p := prevLER
+		if err := storage.SaveLastSentCertificate(ctx, aggsendertypes.Certificate{Header: &aggsendertypes.CertificateHeader{
+			Height: sd.Height, RetryCount: sd.Retry, CertificateID: idHash(uint64(k)), NewLocalExitRoot: newLER,
+			PreviousLocalExitRoot: &p, FromBlock: sd.From, ToBlock: sd.To, Status: agglayertypes.CertificateStatus(sd.Status),
+			CreatedAt: 1, UpdatedAt: 1, CertType: aggsendertypes.CertificateTypePP, CertSource: aggsendertypes.CertificateSourceLocal},
+			SignedCertificate: &signed}); err != nil {
+			panic(err)
+		}
+		ps := hlib.Hex(prevLER[:])
+		out.Seeds = append(out.Seeds, RowObs{Height: sd.Height, ID: int64(k), Status: sd.Status, From: sd.From, To: sd.To,
+			Prev: &ps, New: hlib.Hex(newLER[:]), Retry: sd.Retry})
+	}
 	v := aggsender.NewVerifAggSenderC02(logger, storage, agg, bs, fakeL1{}, fakeLER{startLER}, signer{}, in.Retry, in.StartBlock)
-	if err := v.VerifInitialStatusC02(ctx); err != nil {
+	// what Start does before the loop; it retries for ever when the local table contradicts the Agglayer
+	ctxInit, cancel := context.WithTimeout(ctx, 3*time.Second)
+	err = v.VerifInitialStatusC02(ctxInit)
+	timedOut := ctxInit.Err() != nil
+	cancel()
+	if err != nil {
 		panic(err)
+	}
+	if timedOut {
+		panic("initial status check did not succeed (seeded table contradicts the Agglayer)")
 	}
 	if startLER == (common.Hash{}) {
 		out.StartLER = "27ae5ba08d7291c96c8cbddcc148bf48a6d68c7974b94356f53754ef6171d757"
@@ -483,6 +558,21 @@ func run(in In, n int) (out Out) {
 			}
 		case "fail":
 			agg.failNext = true
+		case "storefault_on", "storefault_off":
+			// NOT part of the C02 schedule alphabet (storage faults belong to C13): used by hand-written probes only,
+			// to record what the loop does when saveCertificateToStorage gives up. Never generated.
+			q := "DROP TRIGGER IF EXISTS verif_fault"
+			if s.K == "storefault_on" {
+				q = "CREATE TRIGGER verif_fault BEFORE INSERT ON certificate_info BEGIN SELECT RAISE(ABORT, 'verif fault'); END"
+			}
+			d, err := sql.Open("sqlite3", "file:"+filepath.Join(dir, "aggsender.sqlite")+"?_journal_mode=WAL")
+			if err != nil {
+				panic(err)
+			}
+			if _, err := d.Exec(q); err != nil {
+				panic(err)
+			}
+			d.Close()
 		default:
 			panic("bad step kind " + s.K)
 		}
